@@ -270,6 +270,18 @@ def make_unitary(family, n, seed):
         g = np.eye(dim, dtype=complex)
         g[i, i], g[i, k], g[k, i], g[k, k] = c, sgm, -np.conj(sgm), np.conj(c)
         return g @ u
+    if family.startswith("small_pivot@"):
+        # RY(pi - t) (x) V with V[0, 0] real positive: no zero entries, but in the Givens sweep of column 0 the pivot is
+        # ~t/2 of the entry being eliminated, so the normalised off-diagonal element of that rotation is 1 - O(t^2):
+        # within rounding distance of the exact constants (`!= 0`, `not_equal(., 1)`) that locate a rotation
+        t = float(family.split("@")[1])
+        c, sn = math.cos((math.pi - t) / 2), math.sin((math.pi - t) / 2)
+        ry = np.array([[c, -sn], [sn, c]], dtype=complex)
+        if n == 1:
+            return ry
+        v = haar(rng, dim // 2)
+        v = v * (np.conj(v[0, 0]) / abs(v[0, 0]))
+        return np.kron(ry, v)
     if family == "cnot_chain":
         perm = list(range(dim))
         for q in range(n - 1):
@@ -756,6 +768,11 @@ def boundary_jobs(ctx):
         for e in (3e-6, 1e-4):
             jobs.append(("unitary", n, f"tiny_entry@{e:g}", ctx.rng.getrandbits(32), "qr", 0, False))
             ctx.count(f"boundary:qr-smallest-entry:{e:g}")
+    for n in (2, 3):
+        for t in (4e-3, 1e-3, 1e-4, 1e-6):
+            jobs.append(("unitary", n, f"small_pivot@{t:g}", ctx.rng.getrandbits(32), "qr", 0, False))
+            jobs.append(("unitary", n, f"small_pivot@{t:g}", ctx.rng.getrandbits(32), "qsd", 0, True))
+            ctx.count(f"boundary:qr-rotation-element-vs-1:{t:g}")
     return jobs
 
 
